@@ -133,6 +133,19 @@ func (i *interpreter) formatOperand(fr *frame, spec string, verb byte, arg value
 			}
 			return normStr([]value{hi, lo})
 		}
+		// a signed integer with a small known range: fork on its value and format natively
+		if (verb == 'd' || verb == 'v') && d.t.S.K == smt.KBV {
+			if lo, hi, ok := i.st.RangeOf(d.t, true); ok && hi-lo <= 32 {
+				var conds []*smt.Term
+				for c := lo; c <= hi; c++ {
+					conds = append(conds, i.st.Eq(d.t, i.st.Const(d.t.S, uint64(c))))
+				}
+				if k := i.chooseN(conds); k >= 0 {
+					return fmt.Sprintf("%"+spec+string(verb), lo+int64(k))
+				}
+				panic(pathAbort{"assume", "concretize out of range"})
+			}
+		}
 		panic(unsupported(fmt.Sprintf("formatting a symbolic scalar with %%%s%c", spec, verb)))
 	case []value:
 		// []byte with %s / %x
